@@ -49,6 +49,10 @@ type C15Case struct {
 	Ops    []C15Op      `json:"ops,omitempty"`
 	Conc   bool         `json:"concurrent,omitempty"`
 	Note   string       `json:"note,omitempty"`
+	// real time that passes before operation PauseAt (the id caches keep what they looked up for a minute; entries that
+	// were put in by hand, and root, are kept for good): the model has no clock, the outcome does not depend on the pause
+	PauseAt int `json:"pause_at,omitempty"`
+	PauseMs int `json:"pause_ms,omitempty"`
 }
 
 func (c C15Case) canon() string { b, _ := json.Marshal(c); return string(b) }
@@ -259,6 +263,9 @@ func runC15History(m *common.Model, c C15Case) (r c15Result) {
 	}
 
 	for oi, op := range c.Ops {
+		if c.PauseMs > 0 && oi == c.PauseAt {
+			time.Sleep(time.Duration(c.PauseMs) * time.Millisecond)
+		}
 		switch op.K {
 		case "co":
 			if op.G < 0 || op.G >= len(msgs) {
@@ -604,7 +611,7 @@ func c15Family(ctx *Ctx) error {
 	}
 
 	shrink := func(c C15Case, v *common.Violation) C15Case {
-		if c.Conc {
+		if c.Conc || c.PauseMs > 5000 {
 			return c
 		}
 		sig := func(x *common.Violation) string {
@@ -756,6 +763,22 @@ func c15Family(ctx *Ctx) error {
 		}
 		c.Ops = append(c.Ops, C15Op{K: "res", E: 0}, C15Op{K: "co", G: 0})
 		run(c, "long_values_held")
+	}
+	// 2c. the id caches across real time: two events with ids that were put into the package caches by hand (and root's),
+	// resolved, a pause (quick: 1.5 s; thorough: 65 s, longer than the caches keep what they looked up), then two more
+	// events with the same ids, resolved
+	if !stop() {
+		pause := 1500
+		if ctx.Thorough() {
+			pause = 65000
+		}
+		mk := func(seq uint32, uid string) []coal.Rec {
+			return []coal.Rec{{Typ: 1112, Seq: seq, Ms: 1500000000000 + int64(seq), Body: fmt.Sprintf("pid=1 uid=%s auid=%s ses=1 msg='op=login acct=\"alice\" exe=\"/usr/sbin/sshd\" hostname=h addr=10.0.0.1 terminal=ssh res=success'", uid, uid)}}
+		}
+		c := C15Case{Groups: [][]coal.Rec{mk(9001, "1000"), mk(9002, "0"), mk(9003, "1000"), mk(9004, "0"), mk(9005, "48")},
+			Ops:     []C15Op{{K: "co", G: 0}, {K: "res", E: 0}, {K: "co", G: 1}, {K: "res", E: 1}, {K: "co", G: 2}, {K: "res", E: 2}, {K: "co", G: 3}, {K: "res", E: 3}, {K: "co", G: 4}, {K: "res", E: 4}},
+			PauseAt: 4, PauseMs: pause}
+		run(c, "id_caches_across_a_pause")
 	}
 	// 3. random histories
 	for i := 0; i < ctx.N(1500, 60000) && !stop(); i++ {
